@@ -47,6 +47,7 @@ const (
 	linkLocalUnicast
 	ianaReservedForFutureUse
 	ianaReservedMulticast
+	loopback
 )
 
 var reservedNetworks []*net.IPNet
@@ -89,6 +90,7 @@ func IntersectsIANAReserved(net net.IPNet) bool {
 func init() {
 	var networks = map[subnetCategory][]string{
 		privateUse:                           {"10.0.0.0/8", "172.16.0.0/12", "192.168.0.0/16"},
+		loopback:                             {"127.0.0.0/8", "::1/128"},
 		sharedAddressSpace:                   {"100.64.0.0/10"},
 		benchmarking:                         {"198.18.0.0/15", "2001:2::/48"},
 		documentation:                        {"192.0.2.0/24", "198.51.100.0/24", "203.0.113.0/24", "2001:db8::/32"},
